@@ -292,6 +292,7 @@ func runC07(c *core.Ctx) {
 	// ---------------- R07a split levels
 	levelName := []string{"element", "repetition", "component"}
 	levelWant := []string{"element_delimiter", "repetition_delimiter", "component_delimiter"}
+	intoEdi := func(f *ssa.Function) bool { return core.FuncPkg(f) == r.edi }
 	callersIn := func(f *ssa.Function) []*ssa.Call {
 		var out []*ssa.Call
 		for _, call := range res.callers[f] {
@@ -316,7 +317,7 @@ func runC07(c *core.Ctx) {
 		}
 		anc := map[*ssa.Call]map[*ssa.Call]bool{}
 		for _, s := range splits {
-			a := &a5Ancestry{DataArgs: c07DataArgs, Callers: callersIn}
+			a := &a5Ancestry{DataArgs: c07DataArgs, Callers: callersIn, Into: intoEdi}
 			a.Count(s.Call.Args[0])
 			anc[s] = map[*ssa.Call]bool{}
 			for k := range a.Calls {
@@ -394,7 +395,7 @@ func runC07(c *core.Ctx) {
 	}
 	c.Floor("R07b", 3, "2 stores of RawSegElem.Data, 1 text node from raw data")
 	if r.defFld != nil && len(r.fatal) > 0 && r.createNode != nil && r.dataFld != nil {
-		c07Missing(c, r, fns)
+		c07Missing(c, r, fns, callersIn)
 	}
 	c.Floor("R07c", 3, "error return, missing-element exit, default node")
 	c07NoSharedBuffers(c)
@@ -429,21 +430,11 @@ func c07LenGuard(b *ssa.BasicBlock, res *a5Resolver, r *c07roles) string {
 			continue
 		}
 		// the block must be on the "non-zero length" side
-		zero := func(v ssa.Value) bool {
-			k, ok := v.(*ssa.Const)
-			return ok && k.Value != nil && k.Value.ExactString() == "0"
-		}
-		if !zero(bo.X) && !zero(bo.Y) {
-			continue
-		}
-		nonZeroSucc := -1
-		switch bo.Op {
-		case token.NEQ, token.GTR, token.LSS: // len != 0, len > 0, 0 < len
-			nonZeroSucc = 0
-		case token.EQL, token.LEQ, token.GEQ: // len == 0, len <= 0, 0 >= len
-			nonZeroSucc = 1
-		}
-		if nonZeroSucc < 0 {
+		nonZeroSucc, _, okT := a5LenTest(bo, func(v ssa.Value) bool {
+			call, ok := v.(*ssa.Call)
+			return ok && len(call.Call.Args) == 1 && call.Call.Args[0] == lenArg
+		})
+		if !okT || nonZeroSucc < 0 {
 			continue
 		}
 		side := p.Succs[nonZeroSucc]
@@ -514,6 +505,7 @@ func c07Strip(c *core.Ctx, elemSplit *ssa.Call, callersIn func(*ssa.Function) []
 
 // c07Unescape: R07b.
 func c07Unescape(c *core.Ctx, r *c07roles, callersIn func(*ssa.Function) []*ssa.Call) {
+	intoEdi := func(f *ssa.Function) bool { return core.FuncPkg(f) == r.edi }
 	isData := func(f *types.Var) bool { return f == r.dataFld }
 	marked := func(call *ssa.Call) bool { return c07IsUnescape(call) }
 	for _, f := range c.RepoFunctions() {
@@ -526,7 +518,7 @@ func c07Unescape(c *core.Ctx, r *c07roles, callersIn func(*ssa.Function) []*ssa.
 			if w.Kind != "field" || w.Field != r.dataFld {
 				continue
 			}
-			a := &a5Ancestry{IsMarked: marked, DataArgs: c07DataArgs, ParamReach: true, Callers: callersIn}
+			a := &a5Ancestry{IsMarked: marked, DataArgs: c07DataArgs, ParamReach: true, Callers: callersIn, Into: intoEdi}
 			cnt := a.Count(w.Val)
 			key := fk + " stores RawSegElem.Data"
 			unesc := false
@@ -557,7 +549,7 @@ func c07Unescape(c *core.Ctx, r *c07roles, callersIn func(*ssa.Function) []*ssa.
 			if !ok || k.Value == nil || k.Value.ExactString() != r.textNode {
 				continue
 			}
-			a := &a5Ancestry{IsBoundary: isData, IsMarked: marked, DataArgs: c07DataArgs, Callers: callersIn}
+			a := &a5Ancestry{IsBoundary: isData, IsMarked: marked, DataArgs: c07DataArgs, Callers: callersIn, Into: intoEdi}
 			cnt := a.Count(call.Call.Args[1])
 			if !cnt.Reach {
 				continue // not raw element data (R07c looks at those)
@@ -577,8 +569,25 @@ func c07Unescape(c *core.Ctx, r *c07roles, callersIn func(*ssa.Function) []*ssa.
 	}
 }
 
+// c07Creates: g creates IDR nodes, itself or through helpers of package edi.
+func c07Creates(g *ssa.Function, r *c07roles, d int) bool {
+	if g == nil || g.Blocks == nil || d > 3 {
+		return false
+	}
+	for _, ci := range core.Calls(g) {
+		h := ci.Common().StaticCallee()
+		if h == r.createNode {
+			return true
+		}
+		if h != nil && h != g && core.FuncPkg(h) == r.edi && c07Creates(h, r, d+1) {
+			return true
+		}
+	}
+	return false
+}
+
 // c07Missing: R07c.
-func c07Missing(c *core.Ctx, r *c07roles, fns []*ssa.Function) {
+func c07Missing(c *core.Ctx, r *c07roles, fns []*ssa.Function, callersIn func(*ssa.Function) []*ssa.Call) {
 	for _, f := range fns {
 		// the segment -> node function: loads RawSegElem.Data and creates nodes
 		loadsData, creates := false, false
@@ -597,13 +606,10 @@ func c07Missing(c *core.Ctx, r *c07roles, fns []*ssa.Function) {
 					if core.FieldOfField(x) == r.dataFld {
 						loadsData = true
 					}
-				case ssa.CallInstruction:
-					if x.Common().StaticCallee() == r.createNode {
-						creates = true
-					}
 				}
 			}
 		}
+		creates = c07Creates(f, r, 0)
 		res := f.Signature.Results()
 		if !loadsData || !creates || res.Len() != 2 || !c19IsError(res.At(1).Type()) {
 			continue
@@ -717,7 +723,7 @@ func c07Missing(c *core.Ctx, r *c07roles, fns []*ssa.Function) {
 							bad, badPos = "the missing-element exit does not return (nil, fatal error)", core.InstrPos(x)
 						}
 					case ssa.CallInstruction:
-						if x.Common().StaticCallee() == r.createNode && bad == "" {
+						if h := x.Common().StaticCallee(); (h == r.createNode || (h != nil && core.FuncPkg(h) == r.edi && c07Creates(h, r, 0))) && bad == "" {
 							bad, badPos = "a node is created for an element that is missing and has no default", core.InstrPos(x)
 						}
 					}
@@ -732,50 +738,99 @@ func c07Missing(c *core.Ctx, r *c07roles, fns []*ssa.Function) {
 				c.OK("R07c", key, core.InstrPos(m.Instrs[0]), "returns (nil, fatal error) without creating a node")
 			}
 		}
-		// (3) text nodes that are not raw data: "" or *Default
-		for _, ci := range core.Calls(f) {
-			call, ok := ci.(*ssa.Call)
-			if !ok || call.Call.StaticCallee() != r.createNode || len(call.Call.Args) != 2 {
-				continue
+		// (3) text nodes that are not raw data: "" or *Default. Node creation may be delegated to helpers of the
+		// package; their data parameter is followed back to the call sites inside f's call tree.
+		tree := map[*ssa.Function]bool{f: true}
+		var grow func(g *ssa.Function, d int)
+		grow = func(g *ssa.Function, d int) {
+			if d > 2 {
+				return
 			}
-			k, ok := call.Call.Args[0].(*ssa.Const)
-			if !ok || k.Value == nil || k.Value.ExactString() != r.textNode {
-				continue
+			for _, ci := range core.Calls(g) {
+				if h := ci.Common().StaticCallee(); h != nil && h.Blocks != nil && core.FuncPkg(h) == r.edi && !tree[h] && c07Creates(h, r, 0) {
+					tree[h] = true
+					grow(h, d+1)
+				}
 			}
+		}
+		grow(f, 0)
+		var members []*ssa.Function
+		for g := range tree {
+			members = append(members, g)
+		}
+		sort.Slice(members, func(i, j int) bool { return core.FuncKey(members[i]) < core.FuncKey(members[j]) })
+		isRaw := func(v ssa.Value) bool {
 			a := &a5Ancestry{IsBoundary: func(fl *types.Var) bool { return fl == r.dataFld }, DataArgs: c07DataArgs}
-			if a.Count(call.Call.Args[1]).Reach {
-				continue
-			}
-			usesDefault, good := false, true
-			seen := map[ssa.Value]bool{}
-			var leaves func(v ssa.Value)
-			leaves = func(v ssa.Value) {
-				if seen[v] {
-					return
+			return a.Count(v).Reach
+		}
+		for _, g := range members {
+			for _, ci := range core.Calls(g) {
+				call, ok := ci.(*ssa.Call)
+				if !ok || call.Call.StaticCallee() != r.createNode || len(call.Call.Args) != 2 {
+					continue
 				}
-				seen[v] = true
-				switch x := v.(type) {
-				case *ssa.Phi:
-					for _, e := range x.Edges {
-						leaves(e)
+				k, ok := call.Call.Args[0].(*ssa.Const)
+				if !ok || k.Value == nil || k.Value.ExactString() != r.textNode {
+					continue
+				}
+				usesDefault, good, nonRaw := false, true, 0
+				seen := map[ssa.Value]bool{}
+				var leaves func(v ssa.Value)
+				leaves = func(v ssa.Value) {
+					if seen[v] {
+						return
 					}
-				case *ssa.Const:
-					if x.Value == nil || x.Value.Kind() != constant.String || constant.StringVal(x.Value) != "" {
+					seen[v] = true
+					switch x := v.(type) {
+					case *ssa.Phi:
+						for _, e := range x.Edges {
+							leaves(e)
+						}
+						return
+					case *ssa.Parameter:
+						fn := x.Parent()
+						followed := false
+						for i, fp := range fn.Params {
+							if fp != x {
+								continue
+							}
+							for _, cs := range callersIn(fn) {
+								if tree[cs.Parent()] && i < len(cs.Call.Args) {
+									followed = true
+									leaves(cs.Call.Args[i])
+								}
+							}
+						}
+						if followed {
+							return
+						}
+					}
+					if isRaw(v) {
+						return // raw element data: R07b
+					}
+					nonRaw++
+					switch x := v.(type) {
+					case *ssa.Const:
+						if x.Value == nil || x.Value.Kind() != constant.String || constant.StringVal(x.Value) != "" {
+							good = false
+						}
+					case *ssa.UnOp:
+						if x.Op == token.MUL && fieldOfLoad(x.X) == r.defFld {
+							usesDefault = true
+						} else {
+							good = false
+						}
+					default:
 						good = false
 					}
-				case *ssa.UnOp:
-					if x.Op == token.MUL && fieldOfLoad(x.X) == r.defFld {
-						usesDefault = true
-					} else {
-						good = false
-					}
-				default:
-					good = false
 				}
+				leaves(call.Call.Args[1])
+				if nonRaw == 0 {
+					continue
+				}
+				c.Check(good && usesDefault, "R07c", fk+" text node for a missing element", core.InstrPos(call), "data is \"\" or the declared default",
+					"the node created for a missing element does not carry the declared default (or the empty string)")
 			}
-			leaves(call.Call.Args[1])
-			c.Check(good && usesDefault, "R07c", fk+" text node for a missing element", core.InstrPos(call), "data is \"\" or the declared default",
-				"the node created for a missing element does not carry the declared default (or the empty string)")
 		}
 	}
 }
